@@ -218,7 +218,18 @@ def run_accepted(ctx, m, kind):
         if res.get("events", 0) >= 5000:
             ctx.count("accepted_machine_loops_for_ever_not_judged")       # a legal machine may loop
         else:
-            ctx.violation("accepted-definition-leaves-execution-without-terminal-status", dict(definition=m, mutation=kind, unacked=len(res["unacked"])), classify_accepted(m, kind, res))
+            # confirm in the full simulated world (the mini harness has no task time-outs and runs timers depth-first)
+            scn = {"machines": {"m": {"asl": m}}, "funcs": {}, "starts": [{"machine": "m", "name": "e", "input": {"v": 1, "items": [1, 2]}}]}
+            run = S.execute(scn, seed=ctx.seed, monitors=("notes",))
+            try:
+                seq = list(run.status_seq.values())
+                confirmed = not (seq and seq[0] and seq[0][-1] in ("SUCCEEDED", "FAILED"))
+            finally:
+                S.close(run)
+            if confirmed:
+                ctx.violation("accepted-definition-leaves-execution-without-terminal-status", dict(definition=m, mutation=kind, unacked=len(res["unacked"])), classify_accepted(m, kind, res))
+            else:
+                ctx.count("mini_harness_nontermination_not_confirmed_in_world")
     elif res["unacked"]:
         ctx.count("accepted_machine_left_events_unacknowledged_not_judged_here")      # C03/C06's clause, not this property's
 
@@ -267,8 +278,9 @@ def poison_run(ctx, poison_kind, payload, k):
         if seq and seq[-1] not in ("SUCCEEDED", "FAILED"):
             ctx.violation("poison-execution-left-RUNNING-for-ever", wit(dict(statuses=seq)),
                           escaped or ("uninterpretable-state-loses-execution" if poison_kind == "definition" else None))
+        has_fanout = poison_kind == "definition" and any(isinstance(st, dict) and st.get("Type") in ("Parallel", "Map") for _, st in walk(payload) if isinstance(st, dict))
         for v in run.violations:
-            if v["rule"].startswith("A4-"):
+            if v["rule"].startswith("A4-") and not has_fanout:      # leftovers after a failing fan-out are C06's business
                 ctx.violation("poison-left-unacknowledged-messages-or-engine-state", wit(dict(violation=v)),
                               escaped or ("uninterpretable-state-loses-execution" if (poison_kind == "definition" and (not seq or seq[-1] == "RUNNING")) else None))
         # the engine keeps serving: a second healthy execution afterwards
@@ -326,6 +338,13 @@ def run(ctx):
     # poison beside a healthy execution
     poisons = [("definition", {"StartAt": "A", "States": {"A": "Bogus"}}), ("definition", {"StartAt": "A", "States": {"A": {"Type": "Nope", "End": True}}}),
                ("definition", {"StartAt": "Missing", "States": {"A": {"Type": "Pass", "End": True}}}), ("definition", {"StartAt": "A", "States": {"A": {"Type": "Pass"}}}),
+               ("definition", {"StartAt": "A", "States": {"A": {"Type": "Task", "Resource": "arn:aws:rpcmessage:local::function:boom", "Catch": [{"ErrorEquals": ["States.ALL"]}], "End": True}}}),
+               ("definition", {"StartAt": "A", "States": {"A": {"Type": "Task", "Resource": "arn:aws:rpcmessage:local::function:boom", "Catch": [{"ErrorEquals": ["States.ALL"], "Next": "Nowhere"}], "End": True}}}),
+               ("definition", {"StartAt": "P", "States": {"P": {"Type": "Parallel", "End": True, "Branches": [
+                   {"StartAt": "A", "States": {"A": {"Type": "Task", "Resource": "arn:aws:rpcmessage:local::function:boom", "Catch": [{"ErrorEquals": ["States.ALL"]}], "End": True}}},
+                   {"StartAt": "B", "States": {"B": {"Type": "Pass", "End": True}}}]}}}),
+               ("definition", {"StartAt": "A", "States": {"A": {"Type": "Task", "Resource": "arn:aws:rpcmessage:local::function:boom", "Retry": [{"ErrorEquals": ["States.ALL"], "MaxAttempts": 1}], "Next": "Gone"}}}),
+               ("definition", {"StartAt": "A", "States": {"A": {"Type": "Pass", "Next": "B"}, "B": {"Type": "Choice", "Choices": [{"Variable": "$.v", "IsPresent": True}], "Default": "Gone"}}}),
                ("definition", 5), ("definition", [1]), ("definition", {"StartAt": "A"}), ("definition", {"StartAt": "A", "States": {"A": {"Type": "Task", "End": True}}}),
                ("definition", {"StartAt": "A", "States": {"A": {"Type": "Choice", "Choices": 5}}}), ("definition", {"StartAt": "A", "States": {"A": {"Type": "Map", "End": True}}}),
                ("definition", {"StartAt": "A", "States": {"A": {"Type": "Parallel", "Branches": [5], "End": True}}}),
